@@ -48,7 +48,12 @@ type scenario struct {
 	Cmds    []string `json:"cmds"`
 	NoXDG   bool     `json:"noxdg"` // XDG_CONFIG_HOME is not set: the directory is $HOME/.config/go/telemetry
 	TZ      string   `json:"tz"`    // TZ of the command's environment ("" = not set)
+	Path    int      `json:"path"`  // which characters the path of the telemetry directory contains (pathNames)
 }
+
+// names for the directory above go/telemetry (XDG_CONFIG_HOME, or HOME when that
+// is not set): glob metacharacters, blanks, non-ASCII, a leading dash
+var pathNames = []string{"config", "config[1]", "conf*ig", "con?fig", "config[old", "my config dir", "c\u00f6nfig-\u65e5\u672c", "conf\\ig", "-config", "cfg]x[", "config[a-z]"}
 
 type env struct {
 	bin  string
@@ -280,8 +285,10 @@ func (w *world) parseEnv(out string) (vm.ReadBack, bool) {
 
 func runScenario(e *env, sc *scenario) {
 	base := filepath.Join(e.root, fmt.Sprintf("s%d", sc.ID))
-	w := &world{cfg: filepath.Join(base, "config"), home: filepath.Join(base, "home"), ids: map[string]int{}, noxdg: sc.NoXDG, tz: sc.TZ}
+	pn := pathNames[sc.Path%len(pathNames)]
+	w := &world{cfg: filepath.Join(base, pn), home: filepath.Join(base, "home"), ids: map[string]int{}, noxdg: sc.NoXDG, tz: sc.TZ}
 	if w.noxdg {
+		w.home = filepath.Join(base, "home-"+pn)
 		w.cfg = filepath.Join(w.home, ".config")
 	}
 	w.dir = filepath.Join(w.cfg, "go", "telemetry")
@@ -485,6 +492,9 @@ func randomScenarios(n, idBase, today int) []scenario {
 	for i := 0; i < n; i++ {
 		sc := scenario{ID: idBase + i, Src: "random", Today: today, Variant: rng.Intn(1000)}
 		sc.NoXDG = rng.Intn(5) == 0
+		if rng.Intn(2) == 0 {
+			sc.Path = rng.Intn(len(pathNames))
+		}
 		if rng.Intn(4) == 0 {
 			sc.TZ = []string{"Pacific/Kiritimati", "Etc/GMT+12", "Asia/Kolkata"}[rng.Intn(3)]
 		}
